@@ -385,6 +385,34 @@ pub fn run(ctx: &Ctx, rep: &mut Report) {
         check(rep, &b, "random");
     }
     rep.require("accepted_lines_checked");
+    // the accepted odd line "fragment 1 of 0" (no id) after a delivered group of 70 KB, 1.1 MB and
+    // 17 MB (std / alloc): it reports its own payload, nothing of the group
+    if !mon::is_noalloc() {
+        for (gi, size) in [70_000usize, 1_100_000, 17_000_000].iter().enumerate() {
+            if !ctx.mine(item + gi as u64) {
+                continue;
+            }
+            let mut p = Parser::new();
+            let big: Vec<u8> = std::iter::repeat(b'w').take(*size).collect();
+            let own = uniq_payload(4242);
+            let _ = p.parse(&nmea_ref::mk(2, 1, Some(3), &big, 0), false);
+            let _ = p.parse(&nmea_ref::mk(2, 2, Some(3), b"TAIL;0", 0), false);
+            let line = nmea_ref::mk(0, 1, None, &own, 0);
+            rep.eval();
+            rep.class(format!("one-of-zero-after-delivered-group|{}", size));
+            let hist = vec![(format!("... group of two fragments (id 3), {} + 6 payload characters, delivered ...", size).into_bytes(), false), (line.clone(), false)];
+            match p.parse(&line, false) {
+                mon::Call::Panic(pi) => rep.violation(PID, format!("panic@{}", pi.loc), pi.msg.clone(), || mon::replay_history(&hist, "one-of-zero-after-big-group")),
+                mon::Call::Done(Outcome::Complete(sn)) | mon::Call::Done(Outcome::Incomplete(sn)) => {
+                    if sn.data != own {
+                        rep.violation(PID, "payload-not-own".into(), format!("'1 of 0' line after a delivered group of {} characters reports {} payload bytes starting {:?}, its own payload has {}", size + 6, sn.data.len(), crate::json::esc_bytes(&sn.data[..sn.data.len().min(12)]), own.len()), || mon::replay_history(&hist, "one-of-zero-after-big-group"));
+                    }
+                }
+                _ => {}
+            }
+        }
+    }
+    item += 3;
     finish_pause_probes(rep, PID, pauses);
     rep.sample(3, || {
         let mut b = Build::simple(3, 3, Some(7), b"\xe9", b"any;bytes{}", 5);
